@@ -81,8 +81,8 @@ func addrSet(k int, seed int64) [][]byte {
 		out = [][]byte{z, m, plain(0x40, 2), plain(0x41, 3), f}
 	case 3: // prefix / suffix of one another, 32-byte addresses
 		a := plain(0x15, 1)
-		b := append(append([]byte{}, a...), bytes.Repeat([]byte{0x55}, 12)...)   // a is a prefix of b (32 bytes)
-		c := append(bytes.Repeat([]byte{0x56}, 12), a...)                        // a is a suffix of c (32 bytes)
+		b := append(append([]byte{}, a...), bytes.Repeat([]byte{0x55}, 12)...) // a is a prefix of b (32 bytes)
+		c := append(bytes.Repeat([]byte{0x56}, 12), a...)                      // a is a suffix of c (32 bytes)
 		d := bytes.Repeat([]byte{0x77}, 32)
 		out = [][]byte{a, b, c, d, plain(0x7a, 2)}
 	case 4: // one address is another one followed by 0x2c and more bytes (32 bytes); one is the tail after the 0x2c
@@ -105,7 +105,13 @@ func addrSet(k int, seed int64) [][]byte {
 			out = append(out, a)
 		}
 	}
-	sort.Slice(out, func(i, j int) bool { return bytes.Compare(out[i], out[j]) < 0 })
+	// store iteration order of the staking module: by length, then bytes
+	sort.Slice(out, func(i, j int) bool {
+		if len(out[i]) != len(out[j]) {
+			return len(out[i]) < len(out[j])
+		}
+		return bytes.Compare(out[i], out[j]) < 0
+	})
 	return out
 }
 
@@ -116,6 +122,8 @@ type aliveWorld struct {
 	gov   govv1beta1.Handler
 	aset  int
 	comma []int // validators whose operator address contains 0x2c
+	mixed bool  // operator addresses of different lengths
+	frag  []int // validators whose operator address equals a 0x2c-delimited piece of another validator's address
 	addrs []string
 }
 
@@ -127,8 +135,8 @@ func getAliveWorld(stakes []int64, aset int) *aliveWorld {
 		return w
 	}
 	addrs := addrSet(aset, drv.Seed())
-	sw := newStakeWorld(env.E1Options{Seed: drv.Seed(), Chains: chainNames[:1], Powers: stakes, ValAddrs: addrs}, aliveMaxVals, aliveUnbond)
-	w := &aliveWorld{stakeWorld: sw, aset: aset, comma: []int{}}
+	sw := newStakeWorld(env.E1Options{Seed: drv.Seed(), Chains: chainNames[:1], Powers: stakes, ValAddrs: addrs}, aliveMaxVals, aliveUnbond, 1)
+	w := &aliveWorld{stakeWorld: sw, aset: aset, comma: []int{}, frag: []int{}}
 	w.am = valset.NewAppModule(sw.e.Cdc, *sw.e.Valset, sw.e.Account, sw.e.Bank)
 	w.ms = valsetkeeper.NewMsgServerImpl(*sw.e.Valset)
 	w.gov = valset.NewValsetProposalHandler(*sw.e.Valset)
@@ -137,6 +145,18 @@ func getAliveWorld(stakes []int64, aset int) *aliveWorld {
 			w.comma = append(w.comma, i+1)
 		}
 		w.addrs = append(w.addrs, fmt.Sprintf("%x", a))
+		if len(a) != len(addrs[0]) {
+			w.mixed = true
+		}
+		for j, b := range addrs {
+			if j != i && bytes.Contains(b, []byte{0x2c}) {
+				for _, piece := range bytes.Split(b, []byte{0x2c}) {
+					if bytes.Equal(piece, a) {
+						w.frag = append(w.frag, i+1)
+					}
+				}
+			}
+		}
 	}
 	aliveWorlds[key] = w
 	return w
@@ -267,7 +287,7 @@ func TestDriveAlive(t *testing.T) {
 		}
 		idx := 0
 		emit := func(act string, args any, res string, err error, extra map[string]any) {
-			ev := map[string]any{"h": h.H, "i": idx, "act": act, "args": args, "res": res, "err": errStr(err), "obs": r.observe(), "comma": w.comma}
+			ev := map[string]any{"h": h.H, "i": idx, "act": act, "args": args, "res": res, "err": errStr(err), "obs": r.observe(), "comma": w.comma, "frag": w.frag}
 			for k, v := range extra {
 				ev[k] = v
 			}
@@ -276,7 +296,7 @@ func TestDriveAlive(t *testing.T) {
 		}
 		emit("InitK", map[string]any{"stakes": ia.Stakes, "aset": aset}, "init", nil, map[string]any{
 			"ttl": codeTTL, "grace": codeGrace, "sweep": codeSweep, "warmup": codeWarmUp, "maxvals": aliveMaxVals, "unbond": int(aliveUnbond / time.Second),
-			"addrs": w.addrs, "versions": versions})
+			"addrs": w.addrs, "versions": versions, "mixed": w.mixed})
 		for _, s := range h.Steps[1:] {
 			var a aliveArgs
 			mustArgs(s, &a)
@@ -290,7 +310,7 @@ func TestDriveAlive(t *testing.T) {
 				flush := func() {
 					if runLen > 0 {
 						em.Emit(map[string]any{"h": h.H, "i": idx, "act": "Blocks", "args": map[string]any{"n": runLen, "dt": a.Dt}, "res": "ok", "err": "",
-							"obs": last, "comma": w.comma, "from": int(from), "to": int(from) + runLen - 1, "t0": int(t0)})
+							"obs": last, "comma": w.comma, "frag": w.frag, "from": int(from), "to": int(from) + runLen - 1, "t0": int(t0)})
 						idx++
 					}
 				}
@@ -321,7 +341,9 @@ func TestDriveAlive(t *testing.T) {
 				})
 				emit(s.Act, json.RawMessage(s.Args), resOf(err), err, map[string]any{"from": 0, "to": 0, "t0": 0})
 			case "Jail":
-				err := r.msg(func(c sdk.Context) error { return w.e.Valset.Jail(c, w.e.Vals[a.V-1].Val, "verif: jailed for another reason") })
+				err := r.msg(func(c sdk.Context) error {
+					return w.e.Valset.Jail(c, w.e.Vals[a.V-1].Val, "verif: jailed for another reason")
+				})
 				emit(s.Act, json.RawMessage(s.Args), resOf(err), err, map[string]any{"from": 0, "to": 0, "t0": 0})
 			case "Unjail":
 				err := r.w.unjail(r.ctx, a.V-1)
